@@ -36,26 +36,17 @@ def last (c : Cell) : Content := (c.lastMain, c.lastComb, c.lastStyle)
 @[simp] theorem filled_content (c : Cell) (r s) : (c.filled r s).content = (r, [], c.currStyle.merge s) := rfl
 @[simp] theorem filled_width (c : Cell) (r s) : (c.filled r s).width = 1 := rfl
 
-theorem filledW_one (c : Cell) (r s) : c.filledW r s 1 = c.filled r s := rfl
-@[simp] theorem filledW_last (c : Cell) (r s w) : (c.filledW r s w).last = c.last := rfl
-@[simp] theorem filledW_lastMain (c : Cell) (r s w) : (c.filledW r s w).lastMain = c.lastMain := rfl
-@[simp] theorem filledW_lock (c : Cell) (r s w) : (c.filledW r s w).lock = c.lock := rfl
-@[simp] theorem filledW_content (c : Cell) (r s w) : (c.filledW r s w).content = (r, [], c.currStyle.merge s) := rfl
-@[simp] theorem filledW_currMain (c : Cell) (r s w) : (c.filledW r s w).currMain = r := rfl
-@[simp] theorem filledW_currComb (c : Cell) (r s w) : (c.filledW r s w).currComb = [] := rfl
-@[simp] theorem filledW_currStyle (c : Cell) (r s w) : (c.filledW r s w).currStyle = c.currStyle.merge s := rfl
-@[simp] theorem filledW_width (c : Cell) (r s w) : (c.filledW r s w).width = w := rfl
-
-theorem fillWidth_false (rw : Rune → Int) (r : Rune) : fillWidth false rw r = 1 := by simp [fillWidth]
-theorem fillWidth_ne0 (fz : Bool) (rw : Rune → Int) (r : Rune) (h : rw r ≠ 0) : fillWidth fz rw r = 1 := by
-  simp [fillWidth, h]
-theorem fillWidth_true_zero (rw : Rune → Int) (r : Rune) (h : rw r = 0) : fillWidth true rw r = 0 := by
-  simp [fillWidth, h]
-/-- the repaired Fill records the rune's own width for every rune that is not wider than one column -/
-theorem fillWidth_true_eq (rw : Rune → Int) (r : Rune) (h0 : 0 ≤ rw r) (h1 : rw r ≤ 1) : fillWidth true rw r = rw r := by
+theorem fillRune_false (rw : Rune → Int) (r : Rune) : fillRune false rw r = r := by simp [fillRune]
+theorem fillRune_ne0 (fz : Bool) (rw : Rune → Int) (r : Rune) (h : rw r ≠ 0) : fillRune fz rw r = r := by
+  simp [fillRune, h]
+theorem fillRune_true_zero (rw : Rune → Int) (r : Rune) (h : rw r = 0) : fillRune true rw r = 32 := by
+  simp [fillRune, h]
+/-- the rune the repaired Fill stores always has width 1 when `r` is not wider than one column -/
+theorem fillRune_true_width (rw : Rune → Int) (r : Rune) (h32 : rw 32 = 1) (h0 : 0 ≤ rw r) (h1 : rw r ≤ 1) :
+    rw (fillRune true rw r) = 1 := by
   by_cases h : rw r = 0
-  · rw [fillWidth_true_zero rw r h, h]
-  · rw [fillWidth_ne0 true rw r h]; omega
+  · rw [fillRune_true_zero rw r h, h32]
+  · rw [fillRune_ne0 true rw r h]; omega
 
 @[simp] theorem carry_lastMain (c : Cell) : c.carry.lastMain = 0 := rfl
 @[simp] theorem carry_content (c : Cell) : c.carry.content = c.content := rfl
@@ -196,14 +187,15 @@ theorem unlockCell_cells (b : Buf) (x y i j) :
 
 @[simp] theorem fillV_w (fz rw) (b : Buf) (r s) : (b.fillV fz rw r s).w = b.w := rfl
 @[simp] theorem fillV_h (fz rw) (b : Buf) (r s) : (b.fillV fz rw r s).h = b.h := rfl
+theorem fillV_eq (fz rw) (b : Buf) (r s) : b.fillV fz rw r s = b.fill (Cell.fillRune fz rw r) s := rfl
 @[simp] theorem fillV_cells (fz rw) (b : Buf) (r s i j) :
-    (b.fillV fz rw r s).cells i j = (b.cells i j).filledW r s (Cell.fillWidth fz rw r) := rfl
+    (b.fillV fz rw r s).cells i j = (b.cells i j).filled (Cell.fillRune fz rw r) s := rfl
 /-- the pinned variant of `fillV` is `fill` -/
 theorem fillV_false (rw) (b : Buf) (r s) : b.fillV false rw r s = b.fill r s := by
-  unfold fillV fill; simp only [Cell.fillWidth_false, Cell.filledW_one]
+  rw [fillV_eq, Cell.fillRune_false]
 /-- the two trees agree on every rune that is not zero-width -/
 theorem fillV_of_ne0 (fz rw) (b : Buf) (r s) (h : rw r ≠ 0) : b.fillV fz rw r s = b.fill r s := by
-  unfold fillV fill; simp only [Cell.fillWidth_ne0 fz rw r h, Cell.filledW_one]
+  rw [fillV_eq, Cell.fillRune_ne0 fz rw r h]
 
 theorem resize_same (b : Buf) : b.resize b.w b.h = b := by simp [resize]
 theorem resize_cells (b : Buf) (w h i j) (hne : ¬ (b.h = h ∧ b.w = w)) :
